@@ -152,6 +152,74 @@ def run_api(cases, scratch):
     return res
 
 
+def run_hist(hists, scratch):
+    """histories on ONE molecule object: consensus requests interleaved with add_fragment / add_molecule"""
+    import pysam
+    hdr = pysam.AlignmentHeader.from_dict({'HD': {'VN': '1.6'}, 'SQ': [{'SN': CONTIG, 'LN': CONTIG_LEN}]})
+    path = os.path.join(scratch, 'hist.bam')
+    out = pysam.AlignmentFile(path, 'wb', header=hdr)
+    res = []
+    for hi, h in enumerate(hists):
+        info = {'steps': []}
+        res.append(info)
+        try:
+            MolC, FragC, fargs, mx = classes(h['klass'])
+            ref = Ref(h['ref'])
+            counter = [0]
+
+            def mkfrag(f):
+                counter[0] += 1
+                rs = []
+                paired = f['reads'][1] is not None
+                for k, r in enumerate(f['reads']):
+                    rs.append(None if r is None else mk_read(hdr, 'S%d_f%d' % (hi, counter[0]), r, h['sample'],
+                                                             f.get('umi', h['umi']), h['bc'], mx, k == 1, paired))
+                return FragC(rs, **fargs)
+            mol = MolC(mkfrag(h['initial'][0]), reference=ref)
+            for f in h['initial'][1:]:
+                mol.add_fragment(mkfrag(f))
+            for k, op in enumerate(h['ops']):
+                st = {'op': op['op']}
+                info['steps'].append(st)
+                try:
+                    if op['op'] == 'add_fragment':
+                        st['added'] = bool(mol.add_fragment(mkfrag(op['fragment'])))
+                    elif op['op'] == 'add_molecule':
+                        other = MolC(mkfrag(op['fragments'][0]), reference=ref)
+                        for f in op['fragments'][1:]:
+                            other.add_fragment(mkfrag(f))
+                        st['other_len'] = len(other.fragments)
+                        mol.add_molecule(other)
+                    else:
+                        name = 'H%d_%d' % (hi, k)
+                        st['held'] = len(mol.fragments)
+                        mol.write_tags()
+                        if op['path'] == 'dedup':
+                            reads = mol.deduplicate_majority(out, name, max_N_span=op['max_N_span'])
+                            st['returned'] = len(reads)
+                            for r in reads:
+                                out.write(r)
+                        else:
+                            seen = []
+                            mol.write_pysam(out, consensus=True, no_source_reads=op['no_source'], consensus_name=name,
+                                            consensus_read_callback=lambda reads: seen.append(len(reads)))
+                            st['returned'] = seen[0] if seen else -1
+                except BaseException as e:
+                    st['error'] = '%s: %s' % (type(e).__name__, e)
+                    st['trace'] = traceback.format_exc()[-1200:]
+        except BaseException as e:
+            info['error'] = '%s: %s' % (type(e).__name__, e)
+            info['trace'] = traceback.format_exc()[-1200:]
+    out.close()
+    with pysam.AlignmentFile(path, 'rb', check_sq=False) as f:
+        for rec in f:
+            n = rec.query_name
+            if n.startswith('H'):
+                hi, k = [int(x) for x in n[1:].split('_')]
+                res[hi]['steps'][k].setdefault('records', []).append(rec_info(rec, hists[hi]['ref']))
+    return res
+
+
 def run_cli(libs, scratch):
     """bamtagmultiome -method nla|chic --consensus --multiprocess on synthetic sorted+indexed BAMs"""
     import pysam
@@ -231,6 +299,7 @@ def handler(p):
     with contextlib.redirect_stdout(devnull):
         out['api'] = run_api(p.get('api', []), scratch)
         out['cli'] = run_cli(p.get('cli', []), scratch)
+        out['hist'] = run_hist(p.get('hist', []), scratch)
         # the float table the implementation uses: 1 - np.power(10, -q/10), as exact fractions over 2^60
         import numpy as np
         tab = []
